@@ -38,6 +38,7 @@ FEAT = gen.feat(
     ann={"c": 5, "o": 2.5, "u": 1.2, "x": 0.7, "h": 2.5, "ph": 1.5, "ss": 0.5, "d": 0.5, "i": 0.3},
     bodies={"next_try": 0.6, "leaf": 3, "next": 4, "rec": 2, "fnext": 0.6, "next2": 0.5, "next_other": 0.6,
             "rec_next": 0.8},
+    p_alias=0.5,  # class-object arguments may be parametrized aliases (list[int]): an unbounded key space
     p_kw=0.15, p_optional=0.15, ncorpus=(4, 8), nmeth=(3, 8), p_dup_sig=0.08, p_prio=0.3,
     swarm_drop=0.25,
 )
@@ -86,7 +87,7 @@ def gen_scenario(seed, index):
     for _ in range(n):
         k = weighted(rng, [("repeat", 60), ("sibling", 10), ("fail", 12), ("fault", 12), ("resolve", 6),
                            ("display", 3), ("derive", 4), ("introspect", 5), ("abc", 3),
-                           ("registry", 2), ("flood", 1.5), ("refused", 3), ("fork", 1.5),
+                           ("registry", 2), ("flood", 1.5), ("refused", 3), ("fork", 1.5), ("rebind", 2),
                            ("mutate", 3 if not mutated else 0.5)])
         if k in ("repeat", "fail"):
             ops.append({"op": k, "i": rng.randrange(len(corpus))})
@@ -117,6 +118,9 @@ def gen_scenario(seed, index):
             # the rest of the history runs in a forked copy of the process (same functions, same
             # method sets, same caches)
             ops.append({"op": "fork"})
+        elif k == "rebind":
+            # the function object is also made an attribute of some other, new class
+            ops.append({"op": "rebind"})
         elif k == "flood":
             # many first-time argument types (fresh subclasses): a bounded cache must not evict
             # what was resolved before
@@ -322,6 +326,12 @@ def _execute(scen, ctx):
                 stats["faults_fired"] += 1
                 stats["disturb"]["fault:" + op["kind"]] = stats["disturb"].get("fault:" + op["kind"], 0) + 1
             trace.append(["fault", fired])
+        elif k == "rebind":
+            try:
+                type("Rebound", (), {"meth": h.w.funcs["f"]})
+            except Exception:  # noqa: BLE001
+                pass
+            stats["disturb"]["rebind"] = stats["disturb"].get("rebind", 0) + 1
         elif k == "fork":
             if ctx["child_fd"] is not None:
                 continue  # one level is enough
